@@ -469,6 +469,12 @@ def describe(info):
         (f"/{info['param']}" if info.get("param") and info["kind"] != "fault" else "") + f" in module {info['bad']} then {'+'.join(info['cont'])}"
 
 
+def short(r):
+    """an error for the report line: how many lines of hierarchical path, and the last line"""
+    lines = r["err"]["msg"].split("\n")
+    return f"{r['err']['cls']}[path of {max(0, len(lines) - 2)} lines] {lines[-1][:90]}"
+
+
 def report(run, stream, items, outs, fresh, res, limit=3, keep_order=False):
     size = (lambda i: i) if keep_order else (lambda i: (len(items[i][0]["steps"]), len(json.dumps(items[i][0]))))
     v1 = sorted([i for i, (c, _) in res.items() if c == 1], key=size)
@@ -484,17 +490,20 @@ def report(run, stream, items, outs, fresh, res, limit=3, keep_order=False):
         calls = [k for k, s in enumerate(job["steps"]) if s["op"] == "call"]
         k = calls[st]
         key = "C08:" + json.dumps(dict(mods=job["mods"], custom=job["custom"], steps=job["steps"][:k + 1]), sort_keys=True)
-        summary = [(s_.get("err", {}).get("msg", "")[:60] if "err" in s_ else ("package " + s_["ok"] if s_.get("ok") else "ok")) +
+        summary = [(short(s_) if "err" in s_ else ("package " + s_["ok"] if s_.get("ok") else "ok")) +
                    ("" if all(not v for v in s_["pend"].values()) else " [left pending: " + ",".join(f"{a}{b}" for a, b in s_["pend"].items() if b) + "]")
                    for s_ in outs[i]["steps"] if s_ is not None and "edit" not in s_]
         fr = fresh[i].get(k, {})
         run.violation(key, f"{describe(info)}: call #{st} {job['steps'][k]['entry']}({job['steps'][k]['tops']}) violates the specification; "
                       f"calls of the history returned: {summary}; a fresh process returns for call #{st}: "
-                      f"{fr.get('err', {}).get('msg', '')[:60] if 'err' in fr else fr.get('ok')}",
+                      f"{short(fr) if 'err' in fr else fr.get('ok')}" +
+                      (f"; a process in which only this design was ever built returns: {short(outs[i]['minimal'][k]) if 'err' in outs[i]['minimal'][k] else outs[i]['minimal'][k].get('ok')}"
+                       if k in outs[i].get("minimal", {}) else ""),
                       dict(kind="impl-violates-spec", stream=stream, case=dict(job=job, meta={str(a): b for a, b in meta.items()}, info=info),
                            failing_call=st, impl=[dict((a, b) for a, b in s.items() if a in ("ok", "err", "pend", "failed", "edit"))
                                                   for s in outs[i]["steps"]],
                            fresh={str(a): dict((x, y) for x, y in b.items() if x in ("ok", "err")) for a, b in fresh[i].items()},
+                           only_this_design_built={str(a): dict((x, y) for x, y in b.items() if x in ("ok", "err")) for a, b in outs[i].get("minimal", {}).items()},
                            failing_cases=len(v1)))
     if v2 and not v1:
         i = v2[0]
